@@ -303,6 +303,58 @@ def run_deep_case(ctx, res, width, off):
     res.case(('deep', width, off), True, info)
 
 
+def run_leja_cases(ctx, res):
+    """the real `SparseGrid.collocation_1d` with the global optimiser replaced by an IDEAL minimiser over a candidate list (the
+    optimiser is the model's parameter) must build exactly the sequence of the Lean model (`lejaFresh` / `lejaSeq` over the
+    generated objective), on unit bounds and on affine images of them; dyadic candidates keep binary64 exact"""
+    import amisc.training as T
+    from amisc.training import SparseGrid
+    rng = ctx.rng
+    lines, post = [], []
+    real_direct = T.direct
+    try:
+        for _ in range(ctx.scale(10, 60)):
+            m = rng.choice([8, 16, 32])
+            a, b = rng.choice([1.0, 4.0, 0.25, 1024.0, 2.0 ** -10]), rng.choice([0.0, 10.0, -3.0, 4096.0])
+            lb, ub = b, a + b
+            cands = [lb + (ub - lb) * k / m for k in range(m + 1)]
+            wk = rng.choice(['const', 'const', 'quad'])
+            if wk == 'quad' and (a > 4 or abs(b) > 10):
+                wk = 'const'      # keep the products exactly representable
+            wt = (lambda z: 1 + np.asarray(z) ** 2) if wk == 'quad' else None
+            n1, n2 = rng.randint(2, 4), rng.randint(1, 2)
+
+            class _R:
+                pass
+
+            def ideal(fun, bounds, cands=cands, **kw):
+                best, bv = None, None
+                for z in cands:
+                    v = float(np.atleast_1d(fun(np.array([z])))[0])
+                    if bv is None or v < bv:
+                        best, bv = z, v
+                r = _R(); r.x = np.array([best]); return r
+            T.direct = ideal
+            seq1 = SparseGrid.collocation_1d(n1, (lb, ub), wt_fcn=wt)
+            seq2 = SparseGrid.collocation_1d(n2, (lb, ub), z_pts=seq1, wt_fcn=wt)
+            T.direct = real_direct
+            cs = ' '.join(core.rat_str(c) for c in cands)
+            lines.append(f'itp.leja {n1} {wk} {core.rat_str(lb)} {core.rat_str(ub)} | {cs} | -')
+            post.append(({'bounds': [lb, ub], 'candidates': m + 1, 'weight': wk, 'n': n1}, [float(v) for v in seq1]))
+            lines.append(f'itp.leja {n2} {wk} {core.rat_str(lb)} {core.rat_str(ub)} | {cs} | ' + ' '.join(core.rat_str(v) for v in seq1))
+            post.append(({'bounds': [lb, ub], 'candidates': m + 1, 'weight': wk, 'n': n2, 'extends': [float(v) for v in seq1]},
+                         [float(v) for v in seq2]))
+            res.hit('leja-sequence-with-ideal-optimiser')
+    finally:
+        T.direct = real_direct
+    out = core.try_driver(lines, res, 'Amisc.lejaSeq (generated objective)')
+    for (info, impl), o in zip(post, out or []):
+        model = [float(core.parse_rat(t)) for t in o.split()]
+        if model != impl:
+            res.disagreements.append({'name': 'Amisc.lejaFresh / lejaSeq vs SparseGrid.collocation_1d (ideal optimiser over the candidates)',
+                                      'input': info, 'impl': impl, 'model': model})
+
+
 def run(ctx: core.Ctx, only=None) -> core.Result:
     res = core.Result()
     res.rule = ('twin components: unit domains vs per-input affine images with widths 1e-9..1e9 and offsets up to 1e6 '
@@ -339,6 +391,9 @@ def run(ctx: core.Ctx, only=None) -> core.Result:
         case = {k: (tuple(case[k]) if k == 'beta_lim' else case[k]) for k in keys}
         with core.guarded(res, 'scenario-raised', case):
             run_case(ctx, res, case, lines, post)
+    if only is None:
+        with core.guarded(res, 'scenario-raised', {'leja': True}):
+            run_leja_cases(ctx, res)
     # model rule vs implementation rule for the coincidence tolerance: the implementation's decision is observable as
     # "prediction at x equals the node's prediction" only indirectly; we compare the generated tolerance with what a
     # scale-free rule would need: snapTol(width) == width * snapTol(1)
